@@ -269,6 +269,8 @@ func (f *g2lFn) ptrVal(e ast.Expr) bool {
 		if tv, ok := f.g.info.Types[x.X]; ok && tv.Type != nil {
 			return f.g.nonNilSlice(tv.Type)
 		}
+	default:
+		return f.ptrValOwn(e) // go2lean_own.go: new(T), &T{…}
 	}
 	return false
 }
@@ -402,6 +404,9 @@ func (f *g2lFn) nilTest(e ast.Expr, op token.Token) (string, bool) {
 
 // addrOf translates `&x`.
 func (f *g2lFn) addrOf(x *ast.UnaryExpr) string {
+	if s, ok := f.addrOfOwn(x); ok { // go2lean_own.go: &T{…}, &x after the last assignment to x
+		return s
+	}
 	id, ok := ast.Unparen(x.X).(*ast.Ident)
 	if !ok {
 		f.fail("`%s`: the address of something other than a local variable (aliasing is outside the subset)", f.src(x))
@@ -636,6 +641,9 @@ func (g *g2l) headerExtra() string {
 			break
 		}
 	}
+	if g.ownUsed() {
+		b.WriteString(g2lOwnHeader) // go2lean_own.go
+	}
 	if len(g.cfg.Named) > 0 {
 		b.WriteString("  * the named types in namedTypes are opaque: values of the Lean type given\n" +
 			"    there, touched only by the primitives of the configuration.\n")
@@ -676,6 +684,9 @@ func (g *g2l) emitExtra(w func(string, ...any), okUnits []string) {
 	}
 	g.emitInOutFacts(w, okSet)
 	g.emitEffFacts(w, okSet) // go2lean_effects.go
+	if g.ownUsed() {
+		g.emitOwnFacts(w, okSet) // go2lean_own.go
+	}
 	w("/-- opaque named types in use: Go type, its Go declaration, the Lean type that stands for it -/\n")
 	w("def namedTypes : List (String × String × String) := [")
 	for i, k := range sortedKeys(g.x.namedUsed) {
